@@ -358,6 +358,80 @@ fn provided_callback_methods_route_to_on_exit() {
     });
 }
 
+/// a cloned handle is the same cache: one store, one policy, one closed flag, one set of counters
+#[test]
+fn cloned_handle_shares_everything() {
+    if !only("cloned_handle_shares_everything") { return; }
+    guarded("cloned_handle_shares_everything", || {
+        let c: Cache<u64, u64, TransparentKeyBuilder<u64>> = Cache::builder(200, 1000)
+            .set_key_builder(TransparentKeyBuilder::<u64>::default()).set_ignore_internal_cost(true).set_metrics(true).finalize().unwrap();
+        let d = c.clone();
+        let script = "Cache(max_cost=1000, metrics on); d = c.clone(); c.insert(1,10,1); c.wait(); d.get(1); d.insert(2,20,1); d.wait(); c.get(2); d.clear(); d.wait(); c.insert(3,30,1); c.wait(); c.close(); d.get(3); d.insert(4,40,1)";
+        macro_rules! bad { ($clause:expr, $props:expr, $obs:expr, $req:expr) => {{ fail("cloned_handle_shares_everything", $clause, $props, "Clone for Cache", script.into(), $obs, $req); let _ = c.close(); return; }}; }
+        c.insert(1, 10, 1); c.wait().unwrap();
+        if d.get(&1).map(|v| *v.value()) != Some(10) { bad!("C02:cache.clone.same-parts", &["C02", "C20"], "the clone does not see key 1".into(), "Some(10)".into()); }
+        d.insert(2, 20, 1); d.wait().unwrap();
+        if c.get(&2).map(|v| *v.value()) != Some(20) || c.len() != 2 { bad!("C02:cache.clone.same-parts", &["C02", "C06", "C20"], format!("original sees {:?}, len {}", c.get(&2).map(|v| *v.value()), c.len()), "Some(20), len 2".into()); }
+        if d.metrics.get_keys_added() != c.metrics.get_keys_added() { bad!("C17:cache.clone.same-parts", &["C17"], "different counters".into(), "one set of counters".into()); }
+        d.clear().unwrap();
+        while !d.clear_tx.is_empty() { std::thread::yield_now(); }
+        for _ in 0..3 { d.wait().unwrap(); std::thread::sleep(Duration::from_millis(2)); }
+        if c.len() != 0 { bad!("C11:cache.clone.same-parts", &["C11"], format!("len {} after clear() through the clone", c.len()), "0".into()); }
+        let r = c.insert(3, 30, 1);
+        if let Err(e) = c.wait() { bad!("C11:cache.clone.same-parts", &["C11", "C20"], format!("wait() after clear() through a clone failed: {}", e), "Ok: the cache stays usable".into()); }
+        if !r || c.get(&3).map(|v| *v.value()) != Some(30) { bad!("C11:cache.clone.same-parts", &["C11", "C04"], format!("insert -> {}, get -> {:?}", r, c.get(&3).map(|v| *v.value())), "true, Some(30)".into()); }
+        let (h, m) = (c.metrics.get_hits(), c.metrics.get_misses());
+        c.close().unwrap();
+        let (h0, m0) = (d.metrics.get_hits(), d.metrics.get_misses());
+        let _ = (h, m);
+        // the closed flag is shared: the other handle is closed too
+        let got = d.get(&3).map(|v| *v.value());
+        let ins = d.insert(4, 40, 1);
+        if got.is_some() || ins || d.metrics.get_hits() != h0 || d.metrics.get_misses() != m0 || d.metrics.get_sets_dropped() != Some(0) {
+            bad!("C17:cache.clone.same-parts", &["C17", "C02", "C20"], format!("after close() through the original: clone.get(3) -> {:?}, clone.insert(4) -> {}, hits/misses {:?}/{:?} (were {:?}/{:?}), sets_dropped {:?}", got, ins, d.metrics.get_hits(), d.metrics.get_misses(), h0, m0, d.metrics.get_sets_dropped()),
+                 "None, false, counters untouched: the clone is closed as well".into());
+        }
+    });
+}
+
+/// C20/C03: a TTL is any Duration; the largest ones must not panic the caller, kill the processor or hang a later wait().
+/// The scenario runs in a helper thread with a deadline, so that a dead worker shows as a finding, not as a hung check.
+#[test]
+fn huge_ttl_is_just_a_long_ttl() {
+    if !only("huge_ttl_is_just_a_long_ttl") { return; }
+    guarded("huge_ttl_is_just_a_long_ttl", || {
+        for (name, ttl) in [("Duration::MAX", Duration::MAX), ("u64::MAX s", Duration::from_secs(u64::MAX)), ("i64::MAX s", Duration::from_secs(i64::MAX as u64)), ("2^62 s", Duration::from_secs(1 << 62))] {
+            let script = format!("Cache(max_cost=1000, cleanup 50ms); insert_with_ttl(1, 10, 1, {}); wait(); insert_with_ttl(1, 11, 1, {}) [update]; wait(); insert(2, 20, 1); wait(); sleep 120ms; get(1); get(2)", name, name);
+            let (tx, rx) = std::sync::mpsc::channel::<String>();
+            std::thread::spawn(move || {
+                let c: Cache<u64, u64, TransparentKeyBuilder<u64>> = Cache::builder(200, 1000)
+                    .set_key_builder(TransparentKeyBuilder::<u64>::default()).set_ignore_internal_cost(true).set_cleanup_duration(Duration::from_millis(50)).finalize().unwrap();
+                let r = std::panic::catch_unwind(std::panic::AssertUnwindSafe(|| {
+                    let a = c.insert_with_ttl(1, 10, 1, ttl); let w1 = c.wait().is_ok();
+                    let b = c.insert_with_ttl(1, 11, 1, ttl); let w2 = c.wait().is_ok();
+                    c.insert(2, 20, 1); let w3 = c.wait().is_ok();
+                    std::thread::sleep(Duration::from_millis(120));
+                    let g1 = c.get(&1).map(|v| *v.value()); let g2 = c.get(&2).map(|v| *v.value());
+                    (a, w1, b, w2, w3, g1, g2)
+                }));
+                let msg = match r {
+                    Err(_) => "the caller panicked".to_string(),
+                    Ok((true, true, true, true, true, Some(11), Some(20))) => "ok".to_string(),
+                    Ok(x) => format!("(insert, wait, update, wait, wait, get(1), get(2)) = {:?}", x),
+                };
+                let _ = tx.send(msg);
+                let _ = c.close();
+            });
+            let verdict = rx.recv_timeout(Duration::from_secs(10)).unwrap_or_else(|_| "no answer within 10 s: the processor is gone and wait() blocks for ever".to_string());
+            if verdict != "ok" {
+                fail("huge_ttl_is_just_a_long_ttl", "C20:time.unix.no-overflow", &["C20", "C03", "C06"], "Time::unix", script, verdict,
+                     "(true, true, true, true, true, Some(11), Some(20)): the worker is alive and the entry is there".into());
+                return;
+            }
+        }
+    });
+}
+
 /// Probe for a schedule-dependent defect (DESIGN.md F10): `clear()` only *signals* the processor; if the processor has not yet
 /// consumed the signal when the caller's next insert is queued, the cleaner discards that insert (hands it to on_evict).
 #[test]
